@@ -277,17 +277,21 @@ Proof.
            ci_g true 0 0 0 [] [] s0 r eq_refl eq_refl E).
 Qed.
 
-(* through a call, right disjunct: the failure comes from the body (its position is not the call's) *)
+(* through a call, right disjunct: the failure comes from the body (its position is not the call's), and the body is
+   the one stored at address 1 of the heap of s0: body_g (the existential is tied to hget s fa since the audit) *)
 Lemma nv_c20_fail_pos_through_call_body : exists msg pos s' g,
   call1 = (CErr (RFail msg pos s'), g) /\
-  exists f' body slots0 s1, 100%nat = S f' /\ bt s1 = bt s0 /\
-    gexec0 f' body 0 slots0 [] (push_bt s1 (ipos ci_main)) (ci_main :: [c0]) = (RFail msg pos s', g).
+  exists f' slots0 s1, 100%nat = S f' /\ bt s1 = bt s0 /\
+    gexec0 f' body_g 0 slots0 [] (push_bt s1 (ipos ci_main)) (ci_main :: [c0]) = (RFail msg pos s', g).
 Proof.
   destruct call1_shape as (msg & pos & s' & g & E & Hp & _ & _).
   exists msg, pos, s', g. split; [exact E|].
   destruct (c20_fail_pos_through_call my_grow my_get my_set my_len my_getattr my_setattr
-              100%nat true 1 0 0 ci_main [] s0 [c0] msg pos s' g E) as [[_ [_ Hq]]|H]; [|exact H].
-  exfalso. rewrite Hp in Hq. vm_compute in Hq. discriminate.
+              100%nat true 1 0 0 ci_main [] s0 [c0] msg pos s' g E) as [[_ [_ Hq]]|H].
+  - exfalso. rewrite Hp in Hq. vm_compute in Hq. discriminate.
+  - destruct H as (f' & na & nr & va & vt' & ns & ty & body & slots0 & s1 & Hf & Hh & Hb & Hg).
+    change (hget s0 1) with (Some (HFunc 0 0 false 0 0 [] body_g)) in Hh. inversion Hh; subst body.
+    exists f', slots0, s1. repeat split; assumption.
 Qed.
 
 (* through a call, left disjunct: wrong argument count, raised at the call instruction itself (the facts are
@@ -296,7 +300,8 @@ Lemma nv_c20_fail_pos_through_call_boundary : exists msg pos s' g,
   gcall0 100 true 1 1 0 ci_main [fn_Int 1] s0 [c0] = (CErr (RFail msg pos s'), g) /\
   msg = "incorrect args"%string /\ g_chain g = [c0] /\ g_at g = Some ci_main /\ pos = ipos ci_main /\
   ((g_chain g = [c0] /\ g_at g = Some ci_main /\ pos = ipos ci_main) \/
-   (exists f' body slots0 s1, 100%nat = S f' /\ bt s1 = bt s0 /\
+   (exists f' nargs nrets variadic vtype nslots types body slots0 s1, 100%nat = S f' /\
+      hget s0 1 = Some (HFunc nargs nrets variadic vtype nslots types body) /\ bt s1 = bt s0 /\
       gexec0 f' body 0 slots0 [] (push_bt s1 (ipos ci_main)) (ci_main :: [c0]) = (RFail msg pos s', g))).
 Proof.
   assert (S : exists msg pos s' g, gcall0 100 true 1 1 0 ci_main [fn_Int 1] s0 [c0] = (CErr (RFail msg pos s'), g) /\
@@ -454,51 +459,23 @@ Qed.
 Lemma nv_c20_fuse_pos_last : ipos (fused (rule_k 3) w_div3) = mk_pos 2 9 5.
 Proof. rewrite (c20_fuse_pos_last (rule_k 3) (rule_k_in 3 ltac:(lia)) w_div3 eq_refl). reflexivity. Qed.
 
-(* --- remark: the first "early loud" rule is loud only syntactically ------------------------------------- *)
-(* INCDEC never fails in the model: Value_incDec adds an UNTYPED int, mixType = lor (vt v) 1 is odd, hence never
-   TypeString (64), the only panicking branch of Value_opAdd.  So for LOCALGET; INCDEC; LOCALSET the unfused
-   window never reports anything: c20_fuse_line is void for rule 0 (nothing to compare), and the comment of
-   c20_fuse_early_loud_rules ("fails only on a non-numeric operand") describes a case the model does not have. *)
-Lemma remark_incdec_never_panics : forall v n, exists r, Value_incDec v n = Ok r.
+(* --- the first "early loud" rule is loud only syntactically ---------------------------------------------- *)
+(* INCDEC never fails in the model (Proofs/C20_fuse.v incdec_never_panics), so for LOCALGET; INCDEC; LOCALSET the
+   unfused window never reports anything.  After the audit this is the theorem c20_fuse_localincdec_silent of
+   Props/C20.v (it was remark_localincdec_window_never_reports here) and the comment of c20_fuse_early_loud_rules
+   says so.  Witness: rule 0 IS the LOCALINCDEC rule, a matching window x++ on a string-typed slot (the "non-numeric
+   operand") runs through silently, and the theorem applies to it. *)
+Definition w_incdec : list instr :=
+  [mkI c_LocalGet 0 0 0 (mk_pos 2 7 1); mkI c_IncDec 1 0 0 (mk_pos 2 7 2); mkI c_LocalSet 0 0 0 (mk_pos 2 8 1)].
+Lemma nv_c20_fuse_localincdec_silent :
+  r_out (rule_k 0) = "codeLocalIncDec"%string /\ rule_matches (rule_k 0) w_incdec = true /\
+  wrep0 [] 0 w_incdec [fn_String [97]] [] s0 = None /\
+  (forall slots ops s, window_report my_grow my_get my_set my_len my_getattr my_setattr [] 0 w_incdec slots ops s = None).
 Proof.
-  intros v n. unfold Value_incDec. destruct (n <? 0); [eexists; reflexivity|].
-  unfold Value_opAdd, fn_mixType.
-  change (vt (fn_newUntypedInt n)) with 1.
-  repeat match goal with |- context [if ?c then _ else _] =>
-    match c with
-    | (_ =? TypeString) => fail 1
-    | _ => destruct c; [cbn; eexists; reflexivity|]
-    end end.
-  destruct (Z.lor (vt v) 1 =? TypeString) eqn:E; [|cbn; eexists; reflexivity].
-  exfalso. apply Z.eqb_eq in E.
-  assert (T : Z.testbit (Z.lor (vt v) 1) 0 = Z.testbit TypeString 0) by (rewrite E; reflexivity).
-  rewrite Z.lor_spec in T. cbn in T. rewrite orb_true_r in T. discriminate.
-Qed.
-
-Lemma remark_localincdec_window_never_reports :
-  forall grow eg es el ega esa codes pc w slots ops s,
-    List.length w = rule_len (rule_k 0) -> rule_matches (rule_k 0) w = true ->
-    window_report grow eg es el ega esa codes pc w slots ops s = None.
-Proof.
-  intros grow eg es el ega esa codes pc w slots ops s Hl Hm.
-  destruct w as [|i1 [|i2 [|i3 [|i4 w]]]]; try discriminate Hl.
-  unfold rule_matches in Hm. apply andb_true_iff in Hm. destruct Hm as [Hm _].
-  change (r_codes (rule_k 0)) with ["codeLocalGet"; "codeIncDec"; "codeLocalSet"]%string in Hm.
-  cbn [codes_match] in Hm.
-  apply andb_true_iff in Hm. destruct Hm as [H1 Hm].
-  apply andb_true_iff in Hm. destruct Hm as [H2 Hm].
-  apply andb_true_iff in Hm. destruct Hm as [H3 _].
-  apply Z.eqb_eq in H1, H2, H3.
-  change (C "codeLocalGet") with c_LocalGet in H1.
-  change (C "codeIncDec") with c_IncDec in H2.
-  change (C "codeLocalSet") with c_LocalSet in H3.
-  cbn [window_report].
-  rewrite (step1_LocalGet grow eg es el ega esa codes pc i1 slots ops s H1).
-  destruct (znth slots (iA i1)) as [v|]; [|reflexivity].
-  rewrite (step1_IncDec grow eg es el ega esa codes (pc + 1) i2 slots (v :: ops) s H2).
-  destruct (remark_incdec_never_panics v (iA i2)) as [r Er]. rewrite Er. cbn [slift].
-  rewrite (step1_LocalSet grow eg es el ega esa codes (pc + 1 + 1) i3 slots (r :: ops) s H3).
-  destruct (znth slots (iA i3)); reflexivity.
+  split; [reflexivity|]. split; [vm_compute; reflexivity|]. split; [vm_compute; reflexivity|].
+  intros slots ops s.
+  exact (c20_fuse_localincdec_silent my_grow my_get my_set my_len my_getattr my_setattr (rule_k 0) (rule_k_in 0 ltac:(lia))
+           eq_refl w_incdec eq_refl ltac:(vm_compute; reflexivity) [] 0 slots ops s).
 Qed.
 
 (* ------------------------------------------------------------------------------------------------------ *)
@@ -538,4 +515,4 @@ Print Assumptions nv_c20_error_text.
 Print Assumptions nv_c20_fuse_line_3.
 Print Assumptions nv_c20_fuse_same_report_3.
 Print Assumptions nv_c20_stamp.
-Print Assumptions remark_localincdec_window_never_reports.
+Print Assumptions nv_c20_fuse_localincdec_silent.
